@@ -83,12 +83,12 @@ def v1(ctx, fx):
         # duplicate key -> Err before insert
         good = []
         for (bb, tt, ft, c) in bool_switches(writer):
-            if c.kind == "call" and c.d["term"].get("name") == "contains_key" and recv_is_field(c, DECODED) and c07.same_key(c.kids[1], key):
+            if c.kind == "call" and c.d["term"].get("name") == "contains_key" and c.kids and c07._is_map_of(writer, c.kids[0], DECODED) and c07.same_key(c.kids[1], key):
                 good.append((bb, ft))
         # Entry API on the decoded map with the same key: the Vacant edge is the 'not seen before' edge
         for (sb, subj) in common.discr_switches(writer):
             e = peel(subj)
-            if e.kind == "call" and e.d["term"].get("name") == "entry" and len(e.kids) == 2 and recv_is_field(e, DECODED) and c07.same_key(e.kids[1], key):
+            if e.kind == "call" and e.d["term"].get("name") == "entry" and len(e.kids) == 2 and c07._is_map_of(writer, e.kids[0], DECODED) and c07.same_key(e.kids[1], key):
                 tsw = writer.term(sb)
                 vac = fx.variant_discr("std::collections::hash_map::Entry", "Vacant")
                 vac = 1 if vac is None else vac
@@ -215,7 +215,7 @@ def v2(ctx, fx, U):
                     ps = [x for x in walk(ln.kids[1]) if x.kind == "param" and x.fn is callee]
                     for p in ps:
                         a = n.kids[p.d["idx"] - 1]
-                        okv = must(a, lambda x: x.kind == "call" and x.d["term"].get("name") == "get" and len(x.kids) > 1 and const_value(x.kids[1]) in ("_sd", "...")
+                        okv = must(a, lambda x: x.kind == "call" and x.d["term"].get("name") in ("get", "index") and len(x.kids) > 1 and const_value(x.kids[1]) in ("_sd", "...")
                                    and may(x.kids[0], lambda y: y.kind == "param" and y.fn is fn))
                         if okv:
                             ctx.ok("C03.V2", fn, "digest-source:%s" % callee.name.split("::")[-1], "digests handed to %s are read from the `_sd` / `...` member of the structure being unpacked" % callee.name.split("::")[-1], line=t.get("line"))
@@ -409,4 +409,4 @@ def v6(ctx, fx, U, rule):
         ok = unpackmodel.must_walk(fx, W, v)
         chk(ctx, rule, fn, fn.term(b).get("line"), "pushed-element-rewalked", ok, "a visible array element is the walker's result on every path",
             "a visible array element can be pushed to the output without being unpacked")
-    ctx.floor(rule, "output placements judged", n, 4)
+    ctx.floor(rule, "output placements judged", n, 3)
